@@ -1175,6 +1175,8 @@ class FixedStringMemField(MemoryField):
 
 
 class NumericMemField(MemoryField):
+    __array_ufunc__ = None
+
     def __init__(self, session, nformat):
         super().__init__(session)
         self._nformat = nformat
@@ -1740,6 +1742,8 @@ class CategoricalMemField(MemoryField):
 
 
 class TimestampMemField(MemoryField):
+    __array_ufunc__ = None
+
     def __init__(self, session):
         super().__init__(session)
 
@@ -2550,6 +2554,8 @@ class FixedStringField(HDF5Field):
 
 
 class NumericField(HDF5Field):
+    __array_ufunc__ = None
+
     def __init__(self, session, group, dataframe, write_enabled=False):
         super().__init__(session, group, dataframe, write_enabled=write_enabled)
         self._nformat = self._field.attrs['nformat']
@@ -3211,6 +3217,8 @@ class CategoricalField(HDF5Field):
 
 
 class TimestampField(HDF5Field):
+    __array_ufunc__ = None
+
     def __init__(self, session, group, dataframe, write_enabled=False):
         super().__init__(session, group, dataframe, write_enabled=write_enabled)
 
